@@ -3,6 +3,7 @@ package rules
 import (
 	"fmt"
 	"go/token"
+	"go/types"
 	"strings"
 
 	"golang.org/x/tools/go/ssa"
@@ -507,6 +508,59 @@ func Pure(p *core.Prog, r *core.Report) {
 			}
 		})
 		clause(ok, "UniqueItems:deep-equality", p.Pos(f.Pos()), "each element is compared with the earlier ones by reflect.DeepEqual", "UniqueItems no longer uses deep equality between elements")
+		// the duplicate verdict has no other source than that comparison, and every element joins the list of
+		// earlier elements (a shortcut deciding some kinds of elements otherwise — identity of pointers, a hash
+		// lookup — changes what "equal" means for them)
+		onlyDE, nDup := true, 0
+		core.EachInstr(f, func(i ssa.Instruction) {
+			c, is := i.(*ssa.Call)
+			if !is {
+				return
+			}
+			g := core.StaticCallee(c)
+			if g == nil || g.Name() != "DuplicateItems" {
+				return
+			}
+			nDup++
+			guarded := false
+			for _, cd := range core.CondsAt(c.Block()) {
+				if dc, isC := cd.Value.(*ssa.Call); isC && cd.Sense {
+					if dg := core.StaticCallee(dc); dg != nil && core.QualName(dg) == "reflect.DeepEqual" {
+						guarded = true
+					}
+				}
+			}
+			if !guarded {
+				onlyDE = false
+			}
+		})
+		allJoin := true
+		core.EachInstr(f, func(i ssa.Instruction) {
+			ph, is := i.(*ssa.Phi)
+			if !is {
+				return
+			}
+			if _, isSlice := ph.Type().Underlying().(*types.Slice); !isSlice {
+				return
+			}
+			for k, e := range ph.Edges {
+				pr := ph.Block().Preds[k]
+				if !ph.Block().Dominates(pr) {
+					continue // entry edge
+				}
+				// back edge: the list must have grown by the current element on every way round the loop
+				ok := false
+				if ac, isC := e.(*ssa.Call); isC {
+					if b, isB := ac.Call.Value.(*ssa.Builtin); isB && b.Name() == "append" {
+						ok = true
+					}
+				}
+				if !ok {
+					allJoin = false
+				}
+			}
+		})
+		clause(onlyDE && nDup > 0 && allJoin, "UniqueItems:only-deep-equality", p.Pos(f.Pos()), "a duplicate is reported only on a true reflect.DeepEqual, and every element is appended to the list of earlier elements on every way round the loop", "UniqueItems decides some elements otherwise than by deep equality with all earlier elements (a fast path by identity / hashing, or elements that never join the list)")
 	}
 	// ---- Required / ReadOnly zero-value tests ----------------------------------------------------------
 	for _, fn := range []string{"Required", "ReadOnly"} {
